@@ -5,12 +5,16 @@ package main
 
 import (
 	"bytes"
+	"context"
 	"encoding/binary"
 	"fmt"
 	"io/ioutil"
 	"os"
+	"os/exec"
 	"path/filepath"
 	"strings"
+	"testing"
+	"time"
 
 	"github.com/ProjectSerenity/firefly/kbuild/zzverif/vlib"
 )
@@ -249,6 +253,71 @@ func c20ImagePhase(c *vlib.Case, run *vlib.Run, root, scratch string, r *vlib.Ra
 		}
 	}
 	run.Count("image_pairs_compared", 1)
+
+	// A symbol the image does not define. The build must not complete: CompleteRedirects reports the symbol and
+	// ends the process, so this runs in a child (the test binary itself, running TestVerifC20Child). One case in
+	// five, with a symbol of an entry other than the first one taken out of the symbol table.
+	ctx := &Context{Architectures: []string{"amd64"}}
+	ctx.FindRedirects()
+	n := len(ctx.Redirects)
+	if n < 2 || !r.Chance(1, 5) {
+		return
+	}
+	k := r.Range(1, n-1)
+	victim := ctx.Redirects[k].SrcSymbol
+	if r.Bool() {
+		victim = ctx.Redirects[k].DstSymbol
+	}
+	var fewer []c20Sym
+	for _, s := range syms {
+		if s.name != victim {
+			fewer = append(fewer, s)
+		}
+	}
+	img2, tableOff2, _ := c20BuildELF(r, fewer, 16*n)
+	path := filepath.Join(scratch, "kernel-unresolved.elf")
+	if err := ioutil.WriteFile(path, img2, 0644); err != nil {
+		return
+	}
+	defer os.Remove(path)
+	exe, err := os.Executable()
+	if err != nil {
+		return
+	}
+	cctx, cancel := context.WithTimeout(context.Background(), 60*time.Second)
+	defer cancel()
+	cmd := exec.CommandContext(cctx, exe, "-test.run=^TestVerifC20Child$")
+	cmd.Dir = root
+	cmd.Env = append(os.Environ(), "VERIF_C20_CHILD_KERNEL="+path)
+	out, cerr := cmd.CombinedOutput()
+	if !strings.Contains(string(out), "C20CHILD-START") {
+		run.Count("unresolved_symbol_children_that_did_not_start", 1)
+		return
+	}
+	run.Count("images_with_an_unresolved_symbol", 1)
+	if cerr == nil && strings.Contains(string(out), "C20CHILD-RETURNED") {
+		got, _ := ioutil.ReadFile(path)
+		entry := "?"
+		if len(got) >= tableOff2+16*(k+1) {
+			entry = fmt.Sprintf("src %#x dst %#x", binary.LittleEndian.Uint64(got[tableOff2+16*k:]), binary.LittleEndian.Uint64(got[tableOff2+16*k+8:]))
+		}
+		c.Violationf("image-completed-with-unresolved-symbol", "the image defines no symbol %q (entry %d of %d: %s -> %s), yet CompleteRedirects returned and the build went on; the entry in the image now reads %s", victim, k, n, ctx.Redirects[k].SrcSymbol, ctx.Redirects[k].DstSymbol, entry)
+	}
+}
+
+// TestVerifC20Child is the child half of the unresolved-symbol case of c20ImagePhase: it does nothing unless the
+// parent names an image.
+func TestVerifC20Child(t *testing.T) {
+	k := os.Getenv("VERIF_C20_CHILD_KERNEL")
+	if k == "" {
+		return
+	}
+	fmt.Println("C20CHILD-START")
+	ctx := &Context{Architectures: []string{"amd64"}}
+	ctx.FindRedirects()
+	ctx.kernel = k
+	ctx.CompleteRedirects()
+	fmt.Println("C20CHILD-RETURNED")
 }
 
 // c20AsmPhase: the number of entries the image reserves for the table comes from the assembler flag
